@@ -77,8 +77,6 @@ pub broadcast axiom fn axiom_pat_char(c: char)
 pub assume_specification<P: core::str::pattern::Pattern>[ str::replace::<P> ](s: &str, from: P, to: &str) -> (r: String)
     ensures pat_char_of(from) is Some ==> r@ == spec_replace_char(s@, pat_char_of(from)->0, to@);
 
-pub assume_specification[ String::with_capacity ](n: usize) -> (r: String)
-    ensures r@ == Seq::<char>::empty();
 
 // char_indices: (byte offset, char) pairs. Offsets are uninterpreted except: offset == 0 exactly for the first char.
 pub uninterp spec fn char_offset(s: Seq<char>, k: int) -> usize;
